@@ -132,7 +132,33 @@ def feature(case):
         feats.append("not-equal-comparison")
     if "**" in text:
         feats.append("power")
+    if _subscript_of_derived_array(case):
+        feats.append("subscript-of-array-assigned-from-whole-array-expression")
     return "+".join(feats) or "-"
+
+
+def _subscript_of_derived_array(case):
+    """Some phase assigns a whole variable (no subscript, no loop) from an expression over an array variable -- not from
+    <builtin>array itself -- and subscripts that variable with a constant or variable index later on."""
+    def mentions(j, pred):
+        if isinstance(j, list):
+            return pred(j) or any(mentions(x, pred) for x in j)
+        return False
+    for ph in case["src"]["phases"]:
+        arrays, derived = set(), set()
+        for c in ph["calls"]:
+            if c.get("op") != "assign":
+                continue
+            rhs = c["rhs"]
+            if mentions([rhs] + list(c.get("sub") or []), lambda j: len(j) == 3 and j[0] == "sub" and j[1][0] == "v" and j[1][1] in derived):
+                return True
+            if not c.get("sub") and not c.get("loops"):
+                if rhs[0] == "call" and rhs[1] == ["v", "<builtin>array"]:
+                    arrays.add(c["lhs"])
+                elif mentions(rhs, lambda j: len(j) == 2 and j[0] == "v" and j[1] in arrays | derived) and rhs[0] != "sub" \
+                        and not (rhs[0] == "call"):
+                    derived.add(c["lhs"])
+    return False
 
 
 def run(chk):
